@@ -189,8 +189,11 @@ def display_scenarios(seed, n):
         lp = lpfam.family(r.choice(["boxed", "feasible", "infeasible_margin", "unbounded", "degenerate"]), r)
         lines = ["scenario disp_%d_%d" % (seed, k), "handler on"] + lpfam.build_cmds(lp, "h0", "load")
         for lvl in (1, 2, 3, 0):
-            lines += ["copy h1 h0 c", "set_param h1 4 %d" % lvl, r.choice(["exact h1 primal - 1", "exact h1 dual - 1", "opt_primal h1", "opt_dual h1"]), "sol h1",
-                      "write_prob h1 disp_%d_%d.lp LP" % (seed, k), "free h1"]
+            slv = lambda: r.choice(["exact h1 primal - 1", "exact h1 dual - 1", "opt_primal h1", "opt_dual h1"])
+            # writers redirect the problem's reporter to the file: solves AFTER a write must still talk to the handler only
+            lines += ["copy h1 h0 c", "set_param h1 4 %d" % lvl, slv(), "sol h1",
+                      "write_prob h1 disp_%d_%d.%s" % (seed, k, r.choice(["lp LP", "mps MPS", "lp.gz LP"])), slv(), "sol h1",
+                      "write_basis h1 - disp_%d_%d.bas" % (seed, k), slv(), "free h1"]
         lines += ["free h0", "shutdown"]
         out.append("\n".join(lines) + "\n")
     return "".join(out)
